@@ -119,7 +119,7 @@ pub fn run_msgs(msgs: &[M]) -> String {
         .map(|(k, v)| {
             let l = v.get_one().unwrap();
             let e = l.ecu.as_u32le().to_le_bytes()[3].wrapping_sub(b'0');
-            format!("{},{},{},{},{},{}", canon(k), e, l.nr_msgs, l.start_time, l.end_time(), l.is_resume() as u8)
+            format!("{},{},{},{},{},{},{}", canon(k), e, l.nr_msgs, l.start_time, l.end_time(), l.is_resume() as u8, l.resume_start_time())
         })
         .collect();
     t.sort();
@@ -134,7 +134,7 @@ pub fn run_msgs(msgs: &[M]) -> String {
                 let res = l.resume_lc_id().map_or(0, |i| if i >= min_id { i - min_id + 1 } else { 999_999 });
                 #[cfg(not(adlt_verif))]
                 let res = 0;
-                format!("{},{},{},{}", canon(&l.id()), l.start_time, res, l.id() - min_id + 1)
+                format!("{},{},{},{},{}", canon(&l.id()), l.start_time, res, l.id() - min_id + 1, l.resume_start_time())
             })
             .collect::<Vec<_>>()
             .join(" ")
